@@ -21,7 +21,7 @@ func init() {
 	})
 }
 
-var c07Steps = []string{".a", ".b", ".*", "[*]", "[0]", "[1]", "[last]", "[0 to 1]", "[1 to last]", "[0,1]", ".**", ".**{1}", ".**{1 to 2}", " ?(@.a == 1)", " ?(@ > 0)", " ?(exists(@.b))"}
+var c07Steps = []string{".a", ".b", ".*", "[*]", "[0]", "[1]", "[last]", "[0 to 1]", "[1 to last]", "[0,1]", ".**", ".**{1}", ".**{1 to 2}", " ?(@.a == 1)", " ?(@ > 0)", " ?(exists(@.b))", " ?(exists(@[*][0]))"}
 
 func checkStructural(c *h.Ctx, ptxt, doc string, lax bool) {
 	p := cachedPath(ptxt)
